@@ -89,8 +89,6 @@ def generate_index(args:argparse.Namespace):
     proteome = aa.AminoAcidSeqDict()
     proteome.dump_fasta(parth_proteome, source=args.reference_source)
     logger.info('Proteome FASTA loaded.')
-    index_dir.save_proteome(proteome)
-    logger.info('Proteome FASTA saved to disk.')
 
     # annotation GTF
     anno = index_dir.save_annotation(
@@ -101,6 +99,11 @@ def generate_index(args:argparse.Namespace):
         symlink=args.gtf_symlink
     )
     logger.info('Genome annotation GTF saved to disk.')
+
+    # saved after the annotation so that proteins dropped by
+    # --invalid-protein-as-noncoding are not used by updateIndex later.
+    index_dir.save_proteome(proteome)
+    logger.info('Proteome FASTA saved to disk.')
 
     # canoincal peptide pool
     cleavage_params = params.CleavageParams(
